@@ -22,6 +22,7 @@ RULE = (
     "half by half. net engine (real multi-thread runtime, TCP v4/v6 + IPC): see the listener cases. Non-trivial: at least "
     "one connection was registered when the socket went away. Spec oracle: after close/drop (and a drain of the spawned "
     "tasks) every registered connection shows r=1 w=1 — the peer observes end-of-stream; close() reports errs=0."
+    " Family late-peer (engine net): connect() to a loopback port that is bound but not listening (refused) is abandoned after 800 ms, the socket is closed / dropped, THEN the port starts listening: for 6.5 s (longer than the longest pause of the library's retry loop) nothing dials it — nothing of the socket outlives it."
 )
 ASSUMPTIONS = ["OS sockets, the tokio scheduler and timing ('shortly afterwards') are observed on the enumerated grid, not modelled",
                "on the pinned tree a connection whose handshake was still pending survived close/drop (finding D14, repaired)"]
@@ -223,8 +224,22 @@ def accept_failing_case(t, tr, how, pause, n):
     return c
 
 
+def late_peer_case(t, how, n):
+    """state `connecting out, nobody listening yet`: connect() to a loopback port that refuses connections is given 800 ms
+    and abandoned; the socket is closed / dropped; THEN the port starts listening: nothing of the socket is left to dial it
+    (6.5 s: longer than the longest pause of the library's retry loop) — its background tasks have terminated"""
+    ops = [f"sock 1 {t}", "reserve 7", "connectnl 1 7 800", "close 1" if how == "close" else "dropsock 1", "latelisten 7 6500"]
+    c = Case(f"{t}:{how}:net-tcp4-late-peer#{n}", "net", ops, [f"net-{how}", "late-peer"])
+    c.expect = ("net", t, ["late-peer"], how)
+    return c
+
+
 def cases(tier, rng):
     out = gen.corpus(ID)
+    n = 0
+    for t, how in ((("PUSH", "close"), ("PUB", "drop")) if tier == "quick" else [(t, h) for t in netgen.TYPES9 for h in ("close", "drop")]):
+        out.append(late_peer_case(t, how, 900000 + n))
+        n += 1
     n = 0
     for tr in [x for x in netgen.transports() if x in ("tcp4", "ipc")]:
         for how in ("close", "drop"):
@@ -300,6 +315,9 @@ def oracle(case, lines):
                 return f"after {how} the connection whose handshake was still pending stays open: {l}"
             if w[0] == "recv" and not l.startswith("ok M["):
                 return f"traffic before the {how} failed: {l}"
+            if w[0] == "latelisten" and l != "nobody":
+                return (f"after {how} of a socket whose connect() had found nobody listening, the endpoint came up and something "
+                        f"still dialled it: {l} — a background task of the socket has outlived it")
         return None
     t, flags, how = case.expect
     res = list(zip(case.ops, lines[1:]))
